@@ -67,7 +67,8 @@ def _vol_chunk(args):
         if nc and (i + seed) % rdm_mod == 0:
             m = S.RDM_METHODS[(i // rdm_mod + seed) % len(S.RDM_METHODS)]
             b2, _ = S.check_rdms(tuple(rec['shape']), rec['centres'], rec['neigh'], m, variant=variant,
-                                 seed=seed * 7919 + i, dtype=S.DATA_DTYPES[(i // 3 + seed) % len(S.DATA_DTYPES)])
+                                 seed=seed * 7919 + i, dtype=S.DATA_DTYPES[(i // 3 + seed) % len(S.DATA_DTYPES)],
+                                 order=S.ORDERS[(i // 7 + seed) % 3])
             for k, w, d in b2:
                 d = dict(d)
                 d.update({'mask': rec['mask'], 'radius': rec['rad'], 'threshold': rec['thr']})
@@ -187,7 +188,8 @@ def replay_big(ctx, thorough):
         combos += [('euclidean', dt) for dt in (S.DATA_DTYPES[1:] if thorough else [S.INT_DTYPES[(ctx.seed + k) % 3]])]
         for mi, (m, dt) in enumerate(combos):
             b2, info = S.check_rdms(shape, rec['centres'], rec['neigh'], m, variant=ctx.seed + k + mi,
-                                    seed=ctx.seed * 31 + k, dtype=dt)
+                                    seed=ctx.seed * 31 + k, dtype=dt,
+                                    order=S.ORDERS[(mi + k + ctx.seed) % 3])   # >= 2 runs per case: never all ascending
             ctx.count(len(rec['centres']))
             _report(ctx, b2, {'radius': rec['rad'], 'threshold': rec['thr'], 'n_mask': len(rec['mask'])})
             if not b2 and info.get('chunks') is not None:
